@@ -22,12 +22,19 @@ def parseHOut (s : String) : Option (Option HOut) :=
       | none => none
     | _ => none
 
+/-- FNV-1a, 64 bit (the harness prints long byte strings as `#<length>:<hash>`). -/
+def fnv64 (bs : Bytes) : Nat :=
+  bs.foldl (fun h b => ((h ^^^ b.toNat) * 0x100000001b3) % 2^64) 0xcbf29ce484222325
+
+def showBytes (bs : Bytes) : String :=
+  if bs.length > 256 then "#" ++ toString bs.length ++ ":" ++ toString (fnv64 bs) else hexOfBytes bs
+
 def showResp : Option Message → String
   | none => "noresp"
   | some m =>
     ",".intercalate [toString m.header.id, toString m.header.ec, toString m.header.queryFormat,
-      hexOfBytes m.query, toString m.header.bodyFormat,
-      if m.header.ec ≠ 0 then "E" else hexOfBytes m.body]
+      showBytes m.query, toString m.header.bodyFormat,
+      if m.header.ec ≠ 0 then "E" else showBytes m.body]
 
 structure St where
   inv : List (String × Nat) := []
@@ -79,8 +86,10 @@ def step (st : St) (ws : List String) : St × String :=
   match ws with
   | "req" :: idx :: rest =>
     match headerOfNats ((rest.take 11).map natOf), ((rest.drop 11).take 8) with
-    | some h, [q, b, found, exec, hv, ho, hvn, hon] =>
+    | some h, [q, b, found, exec, hv, ho0, hvn, hon] =>
       let toks := rest.drop 19
+      -- `=` stands for "the same as the borrowed / wrapped outcome"
+      let ho := if ho0 = "=" then hv else ho0
       match bytesOfHex q, bytesOfHex b, parseHOut hv, parseHOut ho,
             parseHOut (if hvn = "=" then hv else hvn), parseHOut (if hon = "=" then ho else hon) with
       | some q, some b, some hv, some ho, some hvn, some hon =>
